@@ -526,8 +526,11 @@ def run_check(prop: str, engine_mods, tier: str, seed: int, replay: str | None =
             "assumptions": sorted({a for p in parts for a in p["assumptions"]}),
             "wall_s": round(time.time() - t0, 2), "violations": len(violations),
         }
-        os.makedirs(os.path.join(VERIF, "evidence"), exist_ok=True)
-        json.dump(ev, open(os.path.join(VERIF, "evidence", f"{prop}.json"), "w"), indent=1, default=str)
+        # evidence/ is only for runs against /repo itself; runs against a scratch copy
+        # (VERIF_REPO=...) leave their record under build/
+        evdir = os.path.join(VERIF, "evidence") if os.path.realpath(REPO) == "/repo" else os.path.join(VERIF, "build", "evidence_other")
+        os.makedirs(evdir, exist_ok=True)
+        json.dump(ev, open(os.path.join(evdir, f"{prop}.json"), "w"), indent=1, default=str)
     finally:
         shutil.rmtree(workdir, ignore_errors=True)
     for l in known_lines:
